@@ -452,6 +452,12 @@ fn pathsets(max_paths: usize) -> Vec<Vec<(u8, bool)>> {
 			out.push(idxs.iter().map(|i| (*i, *i != 0)).collect());
 		}
 	}
+	// the configured list may name a path more than once (it is a list, the registered
+	// set is a set): same length as {a, b} resp. {a, b, c}, fewer distinct paths
+	out.push(vec![(0, true), (0, true)]);
+	if max_paths >= 3 {
+		out.push(vec![(0, true), (1, true), (0, true)]);
+	}
 	out
 }
 
